@@ -13,7 +13,7 @@ import (
 func init() {
 	register(&propDef{
 		ID:          "C19",
-		Explanation: "Decides, for package cmd/templ/generatecmd/sse (every function, go/cfg + type information): R1 no send on a registry channel can follow its close — either the channel type stored in the client registry is never closed and every send on it is one arm of a select whose other arm receives a done signal, or send and close both hold the registry mutex in the same goroutine (a send inside a `go` closure does not hold the caller's lock); R2 while the broadcaster holds the registry mutex it performs no blocking channel operation itself; R3 registration stores under the mutex and removal is deferred, under the mutex; R4 the broadcast loop addresses every registered client (no break/continue/return filter); R2 also covers every other function that takes the registry mutex and deferred calls that run before a deferred Unlock (sync.WaitGroup.Wait, sync.Cond.Wait, time.Sleep, channel operations outside a select with default); R5 the key under which a client is registered comes from a never-repeating source (an atomic add of a positive constant on a field that nothing else writes, a field only ever incremented, or a freshly allocated pointer/channel) — a key computed from the registry's current size is reused after a disconnect and replaces a connected client's entry. R6 the proxy's broadcast entry point hands every event to the hub (Send dominates every exit); R7 on the event-stream route the proxy writes or flushes nothing before the hub's handler runs (the hub registers the client before its first flush). R8 no http.Server of the generate command sets a WriteTimeout and no handler is wrapped in http.TimeoutHandler (the event stream is one response that must stay writable for the whole session). NOT decided: delivery under all interleavings, liveness of slow readers. R9 no value holding a sync primitive by value is copied in package sse (a method with a value receiver locks a copy of the registry's mutex). R10 every return leaves locks released; R11 closures run later read no loop state. R3 also: locksets are taken through lock wrappers (withLock(func())) and a removal inside `defer s.withLock(func(){…})` counts as deferred; a helper that only copies the registry into a slice it returns must hold the mutex itself or at every call site, and the broadcast rules then apply to the loop over the copy. R17 in the stream handler the client is stored in the registry before the first write or flush to the response (helpers summarised); R18 a type of the proxy or the sse package that embeds http.ResponseWriter also has a Flush method. R3 also: the key handed to delete is a local or parameter that holds this client's key (not a field or call evaluated when the client leaves); the removal may be a closure the registering function returns, when every caller defers it.",
+		Explanation: "Decides, for package cmd/templ/generatecmd/sse (every function, go/cfg + type information): R1 no send on a registry channel can follow its close — either the channel type stored in the client registry is never closed and every send on it is one arm of a select whose other arm receives a done signal, or send and close both hold the registry mutex in the same goroutine (a send inside a `go` closure does not hold the caller's lock); R2 while the broadcaster holds the registry mutex it performs no blocking channel operation itself; R3 registration stores under the mutex and removal is deferred, under the mutex; R4 the broadcast loop addresses every registered client (no break/continue/return filter); R2 also covers every other function that takes the registry mutex and deferred calls that run before a deferred Unlock (sync.WaitGroup.Wait, sync.Cond.Wait, time.Sleep, channel operations outside a select with default); R5 the key under which a client is registered comes from a never-repeating source (an atomic add of a positive constant on a field that nothing else writes, a field only ever incremented, or a freshly allocated pointer/channel) — a key computed from the registry's current size is reused after a disconnect and replaces a connected client's entry. R6 the proxy's broadcast entry point hands every event to the hub (Send dominates every exit); R7 on the event-stream route the proxy writes or flushes nothing before the hub's handler runs (the hub registers the client before its first flush). R8 no http.Server of the generate command sets a WriteTimeout and no handler is wrapped in http.TimeoutHandler (the event stream is one response that must stay writable for the whole session). NOT decided: delivery under all interleavings, liveness of slow readers. R9 no value holding a sync primitive by value is copied in package sse (a method with a value receiver locks a copy of the registry's mutex). R10 every return leaves locks released; R11 closures run later read no loop state. R3 also: locksets are taken through lock wrappers (withLock(func())) and a removal inside `defer s.withLock(func(){…})` counts as deferred; a helper that only copies the registry into a slice it returns must hold the mutex itself or at every call site, and the broadcast rules then apply to the loop over the copy. R17 in the stream handler the client is stored in the registry before the first write or flush to the response (helpers summarised); R18 a type of the proxy or the sse package that embeds http.ResponseWriter also has a Flush method. R3 also: the key handed to delete is a local or parameter that holds this client's key (not a field or call evaluated when the client leaves); the removal may be a closure the registering function returns, when every caller defers it. R2 also (round 11): a send on a client's channel that can wait sits in a goroutine of its own, started inside the loop over the clients — never in a loop that one goroutine walks.",
 		Assumptions: []string{"a send on a closed channel panics; a send in a select with a ready done arm cannot block forever", "net/http cancels r.Context() when ServeHTTP returns"},
 		Trusted:     []string{"go/types", "x/tools go/packages, go/cfg"},
 		Run:         runC19,
@@ -441,6 +441,51 @@ func runC19(c *Ctx) {
 	}
 	if nb == 0 {
 		c.viol("C19.R4", "anchor-lost:broadcast-loop", "", "no function ranges over the client registry")
+	}
+	// R2 (round 11): a delivery that can wait (a send on a client's channel outside a select with a default) sits in a
+	// goroutine of its own — started inside the loop over the clients, one per client. One goroutine that walks the
+	// clients and waits for each in turn delivers to nobody behind a stalled client.
+	for _, fd := range allFuncDecls(p) {
+		if fd.Body == nil {
+			continue
+		}
+		var stack []ast.Node
+		nseq := 0
+		ast.Inspect(fd.Body, func(m ast.Node) bool {
+			if m == nil {
+				stack = stack[:len(stack)-1]
+				return true
+			}
+			stack = append(stack, m)
+			ss, ok := m.(*ast.SendStmt)
+			if !ok || !isRegChan(ss.Chan) {
+				return true
+			}
+			if sel, _ := enclosingSelect(fd.Body, ss); sel != nil && selectHasDefault(sel) {
+				return true
+			}
+			var loop ast.Node
+			var goAt ast.Node
+			for k := len(stack) - 2; k >= 0; k-- {
+				switch anc := stack[k].(type) {
+				case *ast.RangeStmt, *ast.ForStmt:
+					if loop == nil && goAt == nil {
+						loop = anc
+					}
+				case *ast.GoStmt:
+					if goAt == nil && loop == nil {
+						goAt = anc
+					}
+				}
+			}
+			// loop != nil: the innermost enclosing construct of the two is a loop — the send runs in the loop's own goroutine
+			if loop != nil {
+				nseq++
+				c.viol("C19.R2", fmt.Sprintf("%s|deliveries-wait-in-turn#%d", funcKey(p, fd), nseq), c.pos(ss.Pos()),
+					fmt.Sprintf("%s sends on a client's channel (%s) and can wait there, inside a loop (%s) that runs in one goroutine: deliveries are made one after the other, so one client that does not take its event holds up every client behind it — they never receive the reload", fd.Name.Name, types.ExprString(ss.Chan), c.pos(loop.Pos())))
+			}
+			return true
+		})
 	}
 
 	// R2 (whole locked region): nothing that can wait for another goroutine runs while the registry mutex is held,
